@@ -72,8 +72,8 @@ pub mod a11 {
       relation r4(i64);
       r1(v0, v1) <-- r1(v0, v1), r1(v1, v1);
       r1(v0, v1) <-- r2(v0, v1) if ((*v0) < 3), r1(v1, v2) if ((*v2) != (*v1));
-      r2(v0, v1) <-- r2(v0, 2), let v1 = (*v0);
-      r2(v2, v1) <-- r2(3, v0), r0(v0, v1), if let Some(v2) = None::<i64>;
+      r2(v0, v1) <-- r2(v0, 2), let v1 = (*v0), if (v1 <= 6);
+      r2(v2, v1) <-- r2(3, v0), r0(v0, v1), if let Some(v2) = None::<i64>, if (v2 <= 6);
       r2(v1, v1) <-- r0(v0, v1) if ((*v1) <= 5);
       r2(v1, (v0 + 1)) <-- let v0 = 2, r0((v0 + 0), v1) if (v0 <= 3), if (v0 < 6);
       r3(v1, v21) <-- r1(v0, v1), agg v21 = max(v20) in r0(_, v20);
@@ -105,446 +105,6 @@ pub mod a11 {
    }
 }
 
-#[allow(unused, non_snake_case, clippy::all)]
-pub mod a19 {
-   use ascent::*;
-   use ascent::aggregators::*;
-   use ascent::lattice::{Dual, set::Set};
-   use crate::common::*;
-   ascent! {
-      pub struct Prog;
-      relation r0(i64);
-      relation r1(i64, i64);
-      relation r2(i64, i64, i64);
-      relation r3(i64, i64);
-      relation r4(i64, i64);
-      relation r5(i64, i64);
-      relation r6(i64);
-      relation r7(i64, i64);
-      r1(v0, (v0 + 1)) <-- let v0 = 1, r0(v1), if (v0 < 6);
-      r2(v0, v0, v0) <-- r0(v0);
-      r3(v2, ((*v0) + 1)) <-- r1(v0, v1), r2(v2, v1, ((*v1) + 1)), if ((*v0) < 6);
-      r5(v0, v1) <-- r1(v0, v1), r4(((*v0) + 1), v2);
-      r3(0, v2) <-- r2(v0, 2, v1), r0(v1), r4(v0, v0) if ((*v0) < 1) let v2 = ((*v1) + 0);
-      r4(v1, v2) <-- r3(v0, v1) if ((*v1) != 3) let v2 = ((*v1) + 0), r2((v2 + 1), v0, v0) if ((*v1) <= 5), r0(v1);
-      r6(v0) <-- r5(v0, v1), agg v21 = min(v20) in r3(v20, (*v0));
-      r7(v0, v21) <-- r1(v0, v1), agg v21 = sum(v20) in r2(0, (*v1), v20);
-   }
-   pub struct Inst { p: Prog, pool: Option<ascent::rayon::ThreadPool> }
-   pub fn make(pool: Option<usize>) -> Box<dyn Driver> {
-      let pool = pool.map(|n| ascent::rayon::ThreadPoolBuilder::new().num_threads(n).build().unwrap());
-      let p = match &pool { Some(pl) => pl.install(|| Default::default()), None => Default::default() };
-      Box::new(Inst { p, pool })
-   }
-   impl Driver for Inst {
-      fn load(&mut self, rel: usize, rows: &[Sexp], append: bool) -> Option<()> {
-         match rel {
-         0 => { let v: Vec<(i64,)> = parse_rows(rows)?; if append { self.p.r0.extend(v) } else { self.p.r0 = v } },
-         1 => { let v: Vec<(i64,i64,)> = parse_rows(rows)?; if append { self.p.r1.extend(v) } else { self.p.r1 = v } },
-         2 => { let v: Vec<(i64,i64,i64,)> = parse_rows(rows)?; if append { self.p.r2.extend(v) } else { self.p.r2 = v } },
-         3 => { let v: Vec<(i64,i64,)> = parse_rows(rows)?; if append { self.p.r3.extend(v) } else { self.p.r3 = v } },
-         4 => { let v: Vec<(i64,i64,)> = parse_rows(rows)?; if append { self.p.r4.extend(v) } else { self.p.r4 = v } },
-         5 => { let v: Vec<(i64,i64,)> = parse_rows(rows)?; if append { self.p.r5.extend(v) } else { self.p.r5 = v } },
-         6 => { let v: Vec<(i64,)> = parse_rows(rows)?; if append { self.p.r6.extend(v) } else { self.p.r6 = v } },
-         7 => { let v: Vec<(i64,i64,)> = parse_rows(rows)?; if append { self.p.r7.extend(v) } else { self.p.r7 = v } },
-            _ => return None,
-         }
-         Some(())
-      }
-      fn run(&mut self) { match &self.pool { Some(pl) => { let p = &mut self.p; pl.install(|| p.run()) }, None => self.p.run() } }
-      fn run_here(&mut self) { self.p.run() }
-      fn run_timeout(&mut self, k: usize) -> Option<bool> { let _ = k; None }
-      fn dump(&self) -> String { vec![dump_rel(0, self.p.r0.iter().map(Row::render).collect()), dump_rel(1, self.p.r1.iter().map(Row::render).collect()), dump_rel(2, self.p.r2.iter().map(Row::render).collect()), dump_rel(3, self.p.r3.iter().map(Row::render).collect()), dump_rel(4, self.p.r4.iter().map(Row::render).collect()), dump_rel(5, self.p.r5.iter().map(Row::render).collect()), dump_rel(6, self.p.r6.iter().map(Row::render).collect()), dump_rel(7, self.p.r7.iter().map(Row::render).collect())].join(" | ") }
-      fn iters(&self) -> String { format!("iters {}", self.p.scc_iters.iter().map(|x| x.to_string()).collect::<Vec<_>>().join(" ")) }
-   }
-}
-
-#[allow(unused, non_snake_case, clippy::all)]
-pub mod a27 {
-   use ascent::*;
-   use ascent::aggregators::*;
-   use ascent::lattice::{Dual, set::Set};
-   use crate::common::*;
-   ascent! {
-      pub struct Prog;
-      relation r0(i64, i64);
-      relation r1(i64, i64);
-      relation r2(i64, i64);
-      relation r3(i64);
-      relation r4(i64, i64);
-      relation r5(i64);
-      relation r6(i64);
-      r2(((*v1) + 1), 2) <-- for v0 in 0..3, r0(v1, (v0 + 0)), if (v0 == 1), if ((*v1) < 6);
-      r2(v2, v1) <-- r2(v0, v1), if ((*v0) != 2), r2(v2, v3), let v4 = ((*v1) + 2);
-      r3(v0) <-- r0(v0, v1), r2(v0, v0), r0(v1, v2);
-      r2(v0, v1) <-- let v0 = 3, r0(v1, (v0 + 1)), r3(v0) if ((*v1) < 6), let v2 = std::cmp::min((*v1), 4), r3(v0);
-      r2(3, 1);
-      r3(1) <-- r0(0, 0);
-      r2(v2, v1) <-- r2(v0, v1) if ((*v1) < 5), r0(v0, v2);
-      r4(v0, v21) <-- r1(v0, v1), agg v21 = max(v20) in r3(v20);
-      r5(v1) <-- r1(v0, v1), r3(v0), r0(v32, v1), agg v21 = count() in r2((*v0), _);
-      r6(v1) <-- r0(v0, v1), agg v21 = count() in r1((*v0), (*v0));
-   }
-   pub struct Inst { p: Prog, pool: Option<ascent::rayon::ThreadPool> }
-   pub fn make(pool: Option<usize>) -> Box<dyn Driver> {
-      let pool = pool.map(|n| ascent::rayon::ThreadPoolBuilder::new().num_threads(n).build().unwrap());
-      let p = match &pool { Some(pl) => pl.install(|| Default::default()), None => Default::default() };
-      Box::new(Inst { p, pool })
-   }
-   impl Driver for Inst {
-      fn load(&mut self, rel: usize, rows: &[Sexp], append: bool) -> Option<()> {
-         match rel {
-         0 => { let v: Vec<(i64,i64,)> = parse_rows(rows)?; if append { self.p.r0.extend(v) } else { self.p.r0 = v } },
-         1 => { let v: Vec<(i64,i64,)> = parse_rows(rows)?; if append { self.p.r1.extend(v) } else { self.p.r1 = v } },
-         2 => { let v: Vec<(i64,i64,)> = parse_rows(rows)?; if append { self.p.r2.extend(v) } else { self.p.r2 = v } },
-         3 => { let v: Vec<(i64,)> = parse_rows(rows)?; if append { self.p.r3.extend(v) } else { self.p.r3 = v } },
-         4 => { let v: Vec<(i64,i64,)> = parse_rows(rows)?; if append { self.p.r4.extend(v) } else { self.p.r4 = v } },
-         5 => { let v: Vec<(i64,)> = parse_rows(rows)?; if append { self.p.r5.extend(v) } else { self.p.r5 = v } },
-         6 => { let v: Vec<(i64,)> = parse_rows(rows)?; if append { self.p.r6.extend(v) } else { self.p.r6 = v } },
-            _ => return None,
-         }
-         Some(())
-      }
-      fn run(&mut self) { match &self.pool { Some(pl) => { let p = &mut self.p; pl.install(|| p.run()) }, None => self.p.run() } }
-      fn run_here(&mut self) { self.p.run() }
-      fn run_timeout(&mut self, k: usize) -> Option<bool> { let _ = k; None }
-      fn dump(&self) -> String { vec![dump_rel(0, self.p.r0.iter().map(Row::render).collect()), dump_rel(1, self.p.r1.iter().map(Row::render).collect()), dump_rel(2, self.p.r2.iter().map(Row::render).collect()), dump_rel(3, self.p.r3.iter().map(Row::render).collect()), dump_rel(4, self.p.r4.iter().map(Row::render).collect()), dump_rel(5, self.p.r5.iter().map(Row::render).collect()), dump_rel(6, self.p.r6.iter().map(Row::render).collect())].join(" | ") }
-      fn iters(&self) -> String { format!("iters {}", self.p.scc_iters.iter().map(|x| x.to_string()).collect::<Vec<_>>().join(" ")) }
-   }
-}
-
-#[allow(unused, non_snake_case, clippy::all)]
-pub mod a35 {
-   use ascent::*;
-   use ascent::aggregators::*;
-   use ascent::lattice::{Dual, set::Set};
-   use crate::common::*;
-   ascent! {
-      pub struct Prog;
-      relation r0(i64, i64);
-      relation r1(i64, i64);
-      relation r2(i64, i64);
-      relation r3(i64, i64);
-      relation r4(i64, i64);
-      relation r5(i64, i64);
-      relation r6(i64);
-      relation r7(i64, i64);
-      r2(v2, v2) <-- if let Some(v0) = Some(3), r0(v1, v2);
-      r3(v0, v2) <-- r2(v0, v1), r5(v2, v0) if ((*v1) <= 5) let v3 = ((*v0) + 0);
-      r2(0, ((*v1) + 1)) <-- r3(v0, v1) if ((*v1) < 5), let v2 = (*v0), if ((*v1) < 6);
-      r4(v0, v1) <-- r1(v0, v1), r1(v0, v0), r1(v1, v2);
-      r3(v2, 2) <-- if let Some(v0) = Some(4), r1(v1, v2);
-      r6(v1) <-- r2(v0, v1), r4(v1, v32), agg v21 = max(v20) in r1(v20, 3);
-      r7(v1, v21) <-- r0(v0, v1), agg v21 = max(v20) in r4(_, v20);
-   }
-   pub struct Inst { p: Prog, pool: Option<ascent::rayon::ThreadPool> }
-   pub fn make(pool: Option<usize>) -> Box<dyn Driver> {
-      let pool = pool.map(|n| ascent::rayon::ThreadPoolBuilder::new().num_threads(n).build().unwrap());
-      let p = match &pool { Some(pl) => pl.install(|| Default::default()), None => Default::default() };
-      Box::new(Inst { p, pool })
-   }
-   impl Driver for Inst {
-      fn load(&mut self, rel: usize, rows: &[Sexp], append: bool) -> Option<()> {
-         match rel {
-         0 => { let v: Vec<(i64,i64,)> = parse_rows(rows)?; if append { self.p.r0.extend(v) } else { self.p.r0 = v } },
-         1 => { let v: Vec<(i64,i64,)> = parse_rows(rows)?; if append { self.p.r1.extend(v) } else { self.p.r1 = v } },
-         2 => { let v: Vec<(i64,i64,)> = parse_rows(rows)?; if append { self.p.r2.extend(v) } else { self.p.r2 = v } },
-         3 => { let v: Vec<(i64,i64,)> = parse_rows(rows)?; if append { self.p.r3.extend(v) } else { self.p.r3 = v } },
-         4 => { let v: Vec<(i64,i64,)> = parse_rows(rows)?; if append { self.p.r4.extend(v) } else { self.p.r4 = v } },
-         5 => { let v: Vec<(i64,i64,)> = parse_rows(rows)?; if append { self.p.r5.extend(v) } else { self.p.r5 = v } },
-         6 => { let v: Vec<(i64,)> = parse_rows(rows)?; if append { self.p.r6.extend(v) } else { self.p.r6 = v } },
-         7 => { let v: Vec<(i64,i64,)> = parse_rows(rows)?; if append { self.p.r7.extend(v) } else { self.p.r7 = v } },
-            _ => return None,
-         }
-         Some(())
-      }
-      fn run(&mut self) { match &self.pool { Some(pl) => { let p = &mut self.p; pl.install(|| p.run()) }, None => self.p.run() } }
-      fn run_here(&mut self) { self.p.run() }
-      fn run_timeout(&mut self, k: usize) -> Option<bool> { let _ = k; None }
-      fn dump(&self) -> String { vec![dump_rel(0, self.p.r0.iter().map(Row::render).collect()), dump_rel(1, self.p.r1.iter().map(Row::render).collect()), dump_rel(2, self.p.r2.iter().map(Row::render).collect()), dump_rel(3, self.p.r3.iter().map(Row::render).collect()), dump_rel(4, self.p.r4.iter().map(Row::render).collect()), dump_rel(5, self.p.r5.iter().map(Row::render).collect()), dump_rel(6, self.p.r6.iter().map(Row::render).collect()), dump_rel(7, self.p.r7.iter().map(Row::render).collect())].join(" | ") }
-      fn iters(&self) -> String { format!("iters {}", self.p.scc_iters.iter().map(|x| x.to_string()).collect::<Vec<_>>().join(" ")) }
-   }
-}
-
-#[allow(unused, non_snake_case, clippy::all)]
-pub mod a43 {
-   use ascent::*;
-   use ascent::aggregators::*;
-   use ascent::lattice::{Dual, set::Set};
-   use crate::common::*;
-   ascent! {
-      pub struct Prog;
-      relation r0(i64);
-      relation r1(i64, i64);
-      relation r2(i64, i64);
-      relation r3(i64, i64);
-      relation r4(i64, i64);
-      relation r5(i64, i64);
-      relation r6(i64, i64);
-      relation r7(i64);
-      relation r8(i64, i64);
-      relation r9(i64);
-      relation r10(i64);
-      r1(3, 2) <-- r0(2);
-      r2(0, v0) <-- r1(v0, v1);
-      r3(v2, v0) <-- r2(v0, v1) if ((*v1) <= 4), r2(v2, v1);
-      r4((v0 + 1), (v0 + 1)) <-- for v0 in 1..4, r3(v1, v0), r2(v2, 0) if ((*v1) <= 3), if (v0 < 6), if (v0 < 6);
-      r5(2, v0) <-- r4(v0, 0) if ((*v0) < 2), if ((*v0) != 2);
-      r2(v0, v8) <-- if let Some(v9) = Some(3), r3(v0, v1), r2(v1, v9) let v8 = ((*v0) + 1);
-      r1(v0, v1) <-- r3(v0, v1), r2(v0, v0), r3(v1, v2);
-      r3(0, 0);
-      r5(v0, v1) <-- r2(v0, v1);
-      r0(3);
-      r3(v1, v3) <-- r3(v0, v1), r1(v2, v0) if ((*v2) < 5), r1(v1, v3);
-      r6(v1, v21) <-- r2(v0, v1), agg v21 = min(v20) in r2((*v1), v20);
-      r7(v0) <-- r4(v0, v1), r1(v32, v33), r0(v33), agg () = not() in r2(1, 2);
-      r8(v0, v21) <-- r0(v0), agg v21 = min(v20) in r6(v20, 0);
-      r9(v0) <-- r3(v0, v1), agg v21 = max(v20) in r4(v20, _);
-      r10(v32) <-- r5(v0, v1), r2(v32, v33), r4(v33, v33), agg v21 = count() in r7((*v1));
-   }
-   pub struct Inst { p: Prog, pool: Option<ascent::rayon::ThreadPool> }
-   pub fn make(pool: Option<usize>) -> Box<dyn Driver> {
-      let pool = pool.map(|n| ascent::rayon::ThreadPoolBuilder::new().num_threads(n).build().unwrap());
-      let p = match &pool { Some(pl) => pl.install(|| Default::default()), None => Default::default() };
-      Box::new(Inst { p, pool })
-   }
-   impl Driver for Inst {
-      fn load(&mut self, rel: usize, rows: &[Sexp], append: bool) -> Option<()> {
-         match rel {
-         0 => { let v: Vec<(i64,)> = parse_rows(rows)?; if append { self.p.r0.extend(v) } else { self.p.r0 = v } },
-         1 => { let v: Vec<(i64,i64,)> = parse_rows(rows)?; if append { self.p.r1.extend(v) } else { self.p.r1 = v } },
-         2 => { let v: Vec<(i64,i64,)> = parse_rows(rows)?; if append { self.p.r2.extend(v) } else { self.p.r2 = v } },
-         3 => { let v: Vec<(i64,i64,)> = parse_rows(rows)?; if append { self.p.r3.extend(v) } else { self.p.r3 = v } },
-         4 => { let v: Vec<(i64,i64,)> = parse_rows(rows)?; if append { self.p.r4.extend(v) } else { self.p.r4 = v } },
-         5 => { let v: Vec<(i64,i64,)> = parse_rows(rows)?; if append { self.p.r5.extend(v) } else { self.p.r5 = v } },
-         6 => { let v: Vec<(i64,i64,)> = parse_rows(rows)?; if append { self.p.r6.extend(v) } else { self.p.r6 = v } },
-         7 => { let v: Vec<(i64,)> = parse_rows(rows)?; if append { self.p.r7.extend(v) } else { self.p.r7 = v } },
-         8 => { let v: Vec<(i64,i64,)> = parse_rows(rows)?; if append { self.p.r8.extend(v) } else { self.p.r8 = v } },
-         9 => { let v: Vec<(i64,)> = parse_rows(rows)?; if append { self.p.r9.extend(v) } else { self.p.r9 = v } },
-         10 => { let v: Vec<(i64,)> = parse_rows(rows)?; if append { self.p.r10.extend(v) } else { self.p.r10 = v } },
-            _ => return None,
-         }
-         Some(())
-      }
-      fn run(&mut self) { match &self.pool { Some(pl) => { let p = &mut self.p; pl.install(|| p.run()) }, None => self.p.run() } }
-      fn run_here(&mut self) { self.p.run() }
-      fn run_timeout(&mut self, k: usize) -> Option<bool> { let _ = k; None }
-      fn dump(&self) -> String { vec![dump_rel(0, self.p.r0.iter().map(Row::render).collect()), dump_rel(1, self.p.r1.iter().map(Row::render).collect()), dump_rel(2, self.p.r2.iter().map(Row::render).collect()), dump_rel(3, self.p.r3.iter().map(Row::render).collect()), dump_rel(4, self.p.r4.iter().map(Row::render).collect()), dump_rel(5, self.p.r5.iter().map(Row::render).collect()), dump_rel(6, self.p.r6.iter().map(Row::render).collect()), dump_rel(7, self.p.r7.iter().map(Row::render).collect()), dump_rel(8, self.p.r8.iter().map(Row::render).collect()), dump_rel(9, self.p.r9.iter().map(Row::render).collect()), dump_rel(10, self.p.r10.iter().map(Row::render).collect())].join(" | ") }
-      fn iters(&self) -> String { format!("iters {}", self.p.scc_iters.iter().map(|x| x.to_string()).collect::<Vec<_>>().join(" ")) }
-   }
-}
-
-#[allow(unused, non_snake_case, clippy::all)]
-pub mod a51 {
-   use ascent::*;
-   use ascent::aggregators::*;
-   use ascent::lattice::{Dual, set::Set};
-   use crate::common::*;
-   ascent! {
-      pub struct Prog;
-      relation r0(i64, i64, i64);
-      relation r1(i64, i64, i64);
-      relation r2(i64, i64, i64);
-      relation r3(i64);
-      relation r4(i64, i64);
-      relation r5(i64);
-      relation r6(i64, i64);
-      relation r7(i64);
-      r2(v0, v0, v0) <-- r1(v0, 2, 1);
-      r2(v0, v0, v1) <-- let v0 = 2, r2((v0 + 0), v0, v1), r2(0, v2, ((*v1) + 1)) if ((*v2) != 2);
-      r2(((*v0) + 1), v1, v1) <-- r2(1, v0, 0) if ((*v0) < 4) let v1 = ((*v0) + 1), if ((*v0) < 6);
-      r2(v5, v0, v0) <-- if let Some(v0) = Some(1), r1(v0, v1, v0), for v2 in [4, 4], r0(v3, v2, v4) if ((*v4) != 4), r0(v5, v6, 0);
-      r3(v0) <-- r1(v0, v1, v2), r1(v2, v1, v33), agg () = not() in r2(_, _, (*v2));
-      r4(v2, 0) <-- r0(v0, v1, v2), agg () = not() in r1(_, _, _);
-      r5(v1) <-- r0(v0, v1, v2), r2(v33, v34, v35), agg v21 = max(v20) in r0(v20, (*v35), (*v0));
-      r6(v34, v21) <-- r1(v0, v1, v2), r0(v2, v1, v33), r1(v0, v34, v33), agg v21 = sum(v20) in r1(_, (*v33), v20);
-      r7(v34) <-- r1(v0, v1, v2), r2(v0, v33, v1), r1(v1, v34, v0), agg () = not() in r0(_, (*v2), _);
-   }
-   pub struct Inst { p: Prog, pool: Option<ascent::rayon::ThreadPool> }
-   pub fn make(pool: Option<usize>) -> Box<dyn Driver> {
-      let pool = pool.map(|n| ascent::rayon::ThreadPoolBuilder::new().num_threads(n).build().unwrap());
-      let p = match &pool { Some(pl) => pl.install(|| Default::default()), None => Default::default() };
-      Box::new(Inst { p, pool })
-   }
-   impl Driver for Inst {
-      fn load(&mut self, rel: usize, rows: &[Sexp], append: bool) -> Option<()> {
-         match rel {
-         0 => { let v: Vec<(i64,i64,i64,)> = parse_rows(rows)?; if append { self.p.r0.extend(v) } else { self.p.r0 = v } },
-         1 => { let v: Vec<(i64,i64,i64,)> = parse_rows(rows)?; if append { self.p.r1.extend(v) } else { self.p.r1 = v } },
-         2 => { let v: Vec<(i64,i64,i64,)> = parse_rows(rows)?; if append { self.p.r2.extend(v) } else { self.p.r2 = v } },
-         3 => { let v: Vec<(i64,)> = parse_rows(rows)?; if append { self.p.r3.extend(v) } else { self.p.r3 = v } },
-         4 => { let v: Vec<(i64,i64,)> = parse_rows(rows)?; if append { self.p.r4.extend(v) } else { self.p.r4 = v } },
-         5 => { let v: Vec<(i64,)> = parse_rows(rows)?; if append { self.p.r5.extend(v) } else { self.p.r5 = v } },
-         6 => { let v: Vec<(i64,i64,)> = parse_rows(rows)?; if append { self.p.r6.extend(v) } else { self.p.r6 = v } },
-         7 => { let v: Vec<(i64,)> = parse_rows(rows)?; if append { self.p.r7.extend(v) } else { self.p.r7 = v } },
-            _ => return None,
-         }
-         Some(())
-      }
-      fn run(&mut self) { match &self.pool { Some(pl) => { let p = &mut self.p; pl.install(|| p.run()) }, None => self.p.run() } }
-      fn run_here(&mut self) { self.p.run() }
-      fn run_timeout(&mut self, k: usize) -> Option<bool> { let _ = k; None }
-      fn dump(&self) -> String { vec![dump_rel(0, self.p.r0.iter().map(Row::render).collect()), dump_rel(1, self.p.r1.iter().map(Row::render).collect()), dump_rel(2, self.p.r2.iter().map(Row::render).collect()), dump_rel(3, self.p.r3.iter().map(Row::render).collect()), dump_rel(4, self.p.r4.iter().map(Row::render).collect()), dump_rel(5, self.p.r5.iter().map(Row::render).collect()), dump_rel(6, self.p.r6.iter().map(Row::render).collect()), dump_rel(7, self.p.r7.iter().map(Row::render).collect())].join(" | ") }
-      fn iters(&self) -> String { format!("iters {}", self.p.scc_iters.iter().map(|x| x.to_string()).collect::<Vec<_>>().join(" ")) }
-   }
-}
-
-#[allow(unused, non_snake_case, clippy::all)]
-pub mod a59 {
-   use ascent::*;
-   use ascent::aggregators::*;
-   use ascent::lattice::{Dual, set::Set};
-   use crate::common::*;
-   ascent! {
-      pub struct Prog;
-      relation r0(i64, i64);
-      relation r1(i64, i64, i64);
-      relation r2(i64, i64);
-      relation r3(i64, i64);
-      relation r4(i64, i64);
-      r2(v0, v1) <-- let v9 = 1, r3(v0, v1), r3(v1, v9);
-      r2(v0, v2) <-- r2(v0, v1), r0(v1, v2), r0(v2, v3);
-      r3(2, v1) <-- if let Some(v0) = Some(4), r1(v0, v0, v0), r1(v1, v0, v2) if ((*v2) < 2);
-      r3(v0, v1) <-- r2(3, 2), r3(1, v0), r1(v1, v0, v2) if ((*v2) <= 1) let v3 = ((*v1) + 0);
-      r2(v2, 3) <-- for v0 in [3, 4], r3(v1, (v0 + 0)), if let Some(v2) = Some(std::cmp::min(v0, 4));
-      r2(v0, v0) <-- if let Some(v0) = Some(0);
-      r4(v0, v21) <-- r2(v0, v1), agg v21 = min(v20) in r3(v20, (*v1));
-   }
-   pub struct Inst { p: Prog, pool: Option<ascent::rayon::ThreadPool> }
-   pub fn make(pool: Option<usize>) -> Box<dyn Driver> {
-      let pool = pool.map(|n| ascent::rayon::ThreadPoolBuilder::new().num_threads(n).build().unwrap());
-      let p = match &pool { Some(pl) => pl.install(|| Default::default()), None => Default::default() };
-      Box::new(Inst { p, pool })
-   }
-   impl Driver for Inst {
-      fn load(&mut self, rel: usize, rows: &[Sexp], append: bool) -> Option<()> {
-         match rel {
-         0 => { let v: Vec<(i64,i64,)> = parse_rows(rows)?; if append { self.p.r0.extend(v) } else { self.p.r0 = v } },
-         1 => { let v: Vec<(i64,i64,i64,)> = parse_rows(rows)?; if append { self.p.r1.extend(v) } else { self.p.r1 = v } },
-         2 => { let v: Vec<(i64,i64,)> = parse_rows(rows)?; if append { self.p.r2.extend(v) } else { self.p.r2 = v } },
-         3 => { let v: Vec<(i64,i64,)> = parse_rows(rows)?; if append { self.p.r3.extend(v) } else { self.p.r3 = v } },
-         4 => { let v: Vec<(i64,i64,)> = parse_rows(rows)?; if append { self.p.r4.extend(v) } else { self.p.r4 = v } },
-            _ => return None,
-         }
-         Some(())
-      }
-      fn run(&mut self) { match &self.pool { Some(pl) => { let p = &mut self.p; pl.install(|| p.run()) }, None => self.p.run() } }
-      fn run_here(&mut self) { self.p.run() }
-      fn run_timeout(&mut self, k: usize) -> Option<bool> { let _ = k; None }
-      fn dump(&self) -> String { vec![dump_rel(0, self.p.r0.iter().map(Row::render).collect()), dump_rel(1, self.p.r1.iter().map(Row::render).collect()), dump_rel(2, self.p.r2.iter().map(Row::render).collect()), dump_rel(3, self.p.r3.iter().map(Row::render).collect()), dump_rel(4, self.p.r4.iter().map(Row::render).collect())].join(" | ") }
-      fn iters(&self) -> String { format!("iters {}", self.p.scc_iters.iter().map(|x| x.to_string()).collect::<Vec<_>>().join(" ")) }
-   }
-}
-
-#[allow(unused, non_snake_case, clippy::all)]
-pub mod a67 {
-   use ascent::*;
-   use ascent::aggregators::*;
-   use ascent::lattice::{Dual, set::Set};
-   use crate::common::*;
-   ascent! {
-      pub struct Prog;
-      relation r0(i64, i64);
-      relation r1(i64, i64, i64);
-      relation r2(i64);
-      relation r3(i64, i64);
-      relation r4(i64, i64);
-      relation r5(i64, i64);
-      relation r6(i64);
-      relation r7(i64);
-      relation r8(i64);
-      relation r9(i64);
-      r1(((*v0) + 1), v0, v1) <-- r0(v0, v1) if ((*v1) != 2), if let Some(v2) = None::<i64>, if ((*v0) < 6);
-      r2(v0) <-- r1(v0, v1, v2) if ((*v0) != 3);
-      r3(v1, v1) <-- r2(v0), r3(v1, v2);
-      r4(v0, ((*v1) + 1)) <-- if let Some(v0) = Some(2), r3(v1, v0), if ((*v1) < 6);
-      r4(v0, v1) <-- r0(v0, v1), r0(v0, v0), r0(v1, v2);
-      r3(v0, v1) <-- r3(v0, v1) if ((*v0) < 4), r4(v1, v2) if ((*v2) != (*v1));
-      r4(v2, ((*v2) + 1)) <-- r3(v0, v1) if ((*v1) < 5), r4(v2, 2), if ((*v2) < 6);
-      r3(v0, v1) <-- r4(1, v0), let v1 = (*v0);
-      r3(v2, v0) <-- let v0 = 3, r0(v0, 1), r0(v1, v2), for v3 in 1..1;
-      r1(1, 3, v1) <-- r0(v0, 0) if ((*v0) <= 3) let v1 = ((*v0) + 1);
-      r5(v0, (v21 as i64)) <-- r4(v0, v1), agg v21 = count() in r1(_, 2, (*v0));
-      r6(v0) <-- r0(v0, v1), r3(v32, v33), r1(v33, v1, v1), agg v21 = sum(v20) in r1((*v33), _, v20);
-      r7(v1) <-- r3(v0, v1), r0(v32, v33), r3(v34, v32), agg v21 = min(v20) in r0(0, v20);
-      r8(v0) <-- r0(v0, v1), agg () = not() in r0(_, (*v1));
-      r9(v1) <-- r3(v0, v1), r0(v1, v32), agg () = not() in r2(_);
-   }
-   pub struct Inst { p: Prog, pool: Option<ascent::rayon::ThreadPool> }
-   pub fn make(pool: Option<usize>) -> Box<dyn Driver> {
-      let pool = pool.map(|n| ascent::rayon::ThreadPoolBuilder::new().num_threads(n).build().unwrap());
-      let p = match &pool { Some(pl) => pl.install(|| Default::default()), None => Default::default() };
-      Box::new(Inst { p, pool })
-   }
-   impl Driver for Inst {
-      fn load(&mut self, rel: usize, rows: &[Sexp], append: bool) -> Option<()> {
-         match rel {
-         0 => { let v: Vec<(i64,i64,)> = parse_rows(rows)?; if append { self.p.r0.extend(v) } else { self.p.r0 = v } },
-         1 => { let v: Vec<(i64,i64,i64,)> = parse_rows(rows)?; if append { self.p.r1.extend(v) } else { self.p.r1 = v } },
-         2 => { let v: Vec<(i64,)> = parse_rows(rows)?; if append { self.p.r2.extend(v) } else { self.p.r2 = v } },
-         3 => { let v: Vec<(i64,i64,)> = parse_rows(rows)?; if append { self.p.r3.extend(v) } else { self.p.r3 = v } },
-         4 => { let v: Vec<(i64,i64,)> = parse_rows(rows)?; if append { self.p.r4.extend(v) } else { self.p.r4 = v } },
-         5 => { let v: Vec<(i64,i64,)> = parse_rows(rows)?; if append { self.p.r5.extend(v) } else { self.p.r5 = v } },
-         6 => { let v: Vec<(i64,)> = parse_rows(rows)?; if append { self.p.r6.extend(v) } else { self.p.r6 = v } },
-         7 => { let v: Vec<(i64,)> = parse_rows(rows)?; if append { self.p.r7.extend(v) } else { self.p.r7 = v } },
-         8 => { let v: Vec<(i64,)> = parse_rows(rows)?; if append { self.p.r8.extend(v) } else { self.p.r8 = v } },
-         9 => { let v: Vec<(i64,)> = parse_rows(rows)?; if append { self.p.r9.extend(v) } else { self.p.r9 = v } },
-            _ => return None,
-         }
-         Some(())
-      }
-      fn run(&mut self) { match &self.pool { Some(pl) => { let p = &mut self.p; pl.install(|| p.run()) }, None => self.p.run() } }
-      fn run_here(&mut self) { self.p.run() }
-      fn run_timeout(&mut self, k: usize) -> Option<bool> { let _ = k; None }
-      fn dump(&self) -> String { vec![dump_rel(0, self.p.r0.iter().map(Row::render).collect()), dump_rel(1, self.p.r1.iter().map(Row::render).collect()), dump_rel(2, self.p.r2.iter().map(Row::render).collect()), dump_rel(3, self.p.r3.iter().map(Row::render).collect()), dump_rel(4, self.p.r4.iter().map(Row::render).collect()), dump_rel(5, self.p.r5.iter().map(Row::render).collect()), dump_rel(6, self.p.r6.iter().map(Row::render).collect()), dump_rel(7, self.p.r7.iter().map(Row::render).collect()), dump_rel(8, self.p.r8.iter().map(Row::render).collect()), dump_rel(9, self.p.r9.iter().map(Row::render).collect())].join(" | ") }
-      fn iters(&self) -> String { format!("iters {}", self.p.scc_iters.iter().map(|x| x.to_string()).collect::<Vec<_>>().join(" ")) }
-   }
-}
-
-#[allow(unused, non_snake_case, clippy::all)]
-pub mod a75 {
-   use ascent::*;
-   use ascent::aggregators::*;
-   use ascent::lattice::{Dual, set::Set};
-   use crate::common::*;
-   ascent! {
-      pub struct Prog;
-      relation r0(i64, i64);
-      relation r1(i64, i64);
-      relation r2(i64, i64);
-      relation r3(i64, i64);
-      r1((v0 + 1), v2) <-- let v0 = 0, r0(v1, v2) if ((*v1) != 5), if (v0 < 6);
-      r2(v0, v0) <-- r1(v0, 2), r1(v0, v0) if ((*v0) <= 4);
-      r2(v0, v1) <-- r2(v0, v1) if ((*v0) < 2), r1(v1, v2) if ((*v2) != (*v1));
-      r1(v0, ((*v1) + 1)) <-- if let Some(v0) = Some(2), r0(1, v1), let v2 = v0, if ((*v1) < 6);
-      r1(v0, 3) <-- r1(v0, v1);
-      r3(v1, (v21 as i64)) <-- r2(v0, v1), agg v21 = count() in r0(_, 1);
-   }
-   pub struct Inst { p: Prog, pool: Option<ascent::rayon::ThreadPool> }
-   pub fn make(pool: Option<usize>) -> Box<dyn Driver> {
-      let pool = pool.map(|n| ascent::rayon::ThreadPoolBuilder::new().num_threads(n).build().unwrap());
-      let p = match &pool { Some(pl) => pl.install(|| Default::default()), None => Default::default() };
-      Box::new(Inst { p, pool })
-   }
-   impl Driver for Inst {
-      fn load(&mut self, rel: usize, rows: &[Sexp], append: bool) -> Option<()> {
-         match rel {
-         0 => { let v: Vec<(i64,i64,)> = parse_rows(rows)?; if append { self.p.r0.extend(v) } else { self.p.r0 = v } },
-         1 => { let v: Vec<(i64,i64,)> = parse_rows(rows)?; if append { self.p.r1.extend(v) } else { self.p.r1 = v } },
-         2 => { let v: Vec<(i64,i64,)> = parse_rows(rows)?; if append { self.p.r2.extend(v) } else { self.p.r2 = v } },
-         3 => { let v: Vec<(i64,i64,)> = parse_rows(rows)?; if append { self.p.r3.extend(v) } else { self.p.r3 = v } },
-            _ => return None,
-         }
-         Some(())
-      }
-      fn run(&mut self) { match &self.pool { Some(pl) => { let p = &mut self.p; pl.install(|| p.run()) }, None => self.p.run() } }
-      fn run_here(&mut self) { self.p.run() }
-      fn run_timeout(&mut self, k: usize) -> Option<bool> { let _ = k; None }
-      fn dump(&self) -> String { vec![dump_rel(0, self.p.r0.iter().map(Row::render).collect()), dump_rel(1, self.p.r1.iter().map(Row::render).collect()), dump_rel(2, self.p.r2.iter().map(Row::render).collect()), dump_rel(3, self.p.r3.iter().map(Row::render).collect())].join(" | ") }
-      fn iters(&self) -> String { format!("iters {}", self.p.scc_iters.iter().map(|x| x.to_string()).collect::<Vec<_>>().join(" ")) }
-   }
-}
-
 fn main() {
-   common::main_loop(&[("a3", a3::make as common::Factory), ("a11", a11::make as common::Factory), ("a19", a19::make as common::Factory), ("a27", a27::make as common::Factory), ("a35", a35::make as common::Factory), ("a43", a43::make as common::Factory), ("a51", a51::make as common::Factory), ("a59", a59::make as common::Factory), ("a67", a67::make as common::Factory), ("a75", a75::make as common::Factory)]);
+   common::main_loop(&[("a3", a3::make as common::Factory), ("a11", a11::make as common::Factory)]);
 }
